@@ -213,3 +213,14 @@ def register(reg):
                  "       self._list[i][1] == old(self._list)[i][1]))"],
         raises={"ValueError": "not clean(value[1])"},
     )
+    reg.contract(
+        "werkzeug/datastructures/headers.py:Headers.update#pairs", prop="C05,C08", self_model=H,
+        params={"arg": "List[Tuple[str, str]]"}, modifies=["self._list"],
+        requires=["I_h(self)"],
+        ensures=["I_h(self)", "forall(0, len(arg), lambda i: clean(arg[i][1]))",
+                 "implies(len(arg) > 0, has_key(self, arg[len(arg) - 1][0]))"],
+        raises={"ValueError": "exists(0, len(arg), lambda i: not clean(arg[i][1]))"},
+        loops={2: {"inv": ["I_h(self)", "forall(0, _i, lambda j: clean(arg[j][1]))",
+                           "implies(_i > 0, has_key(self, arg[_i - 1][0]))"],
+                   "modifies": ["self._list"]}},
+    )
